@@ -81,6 +81,8 @@ class Mon(LifeCounting):
             if not (is_close and tgt == key and not still_open):
                 if key in self.reopened and is_close and tgt == key:
                     continue
+                if r.kind in ("sweep", "restart"):
+                    continue        # expiry: whether it was entitled to is C12's / C13's question
                 out.append(self.V("mailbox-deleted-while-a-side-is-open",
                                   {"mailbox": list(key), "sides_before": pre, "step": r.brief()},
                                   {"kind": r.kind, "cmd": t, "own_close": bool(is_close and tgt == key)}))
@@ -143,14 +145,15 @@ class C08(ProtoSpec):
             self.driver = Driver(binds, names=("1", "2"), mids=("m",), msgs=(("p", "00", "i1"),),
                                  kinds=("bind", "claim", "release", "open", "add", "close"),
                                  release_forms=("bare",), close_forms=("bare", "unopened"), moods=("happy",),
-                                 max_adds=1)
+                                 max_adds=1, ticks=(P_E()[1] + 2 * P_E()[0],), max_ticks=1)
             self.depth = 7
         else:
             binds = [[(X, "A")], [(X, "A"), (X, "B")], [(X, "A"), (X, "B")], [(X, "A"), (X, "B")], [(X, "A"), (X, "B")]]
             self.driver = Driver(binds, names=("1", "2"), mids=("m", "n"), msgs=(("p", "00", "i1"),),
                                  kinds=("bind", "claim", "release", "open", "add", "close", "drop"),
                                  release_forms=("bare", "named"), close_forms=("bare", "named", "unopened"),
-                                 moods=(None, "happy"), max_adds=1, max_drops=2)
+                                 moods=(None, "happy"), max_adds=1, max_drops=2,
+                                 ticks=(P_E()[1] + 2 * P_E()[0],), max_ticks=1)
             self.depth = 9
 
     def nontrivial(self, worlds, mon):
